@@ -114,9 +114,26 @@ def record(src):
                 stream = io.BytesIO()
                 db.save(stream)
                 db.close()
-                db2 = CircuitsDatabase(io.BytesIO(stream.getvalue()))
-                db2.open()
-                back = db2.get_by_label('é-label' if src['vs'] % 2 else 'plain_label')
+                how = (src['vs'] // 2) % 3      # reopened from memory, from a .bin path, from an .xz path given as str
+                if how == 0:
+                    db2 = CircuitsDatabase(io.BytesIO(stream.getvalue()))
+                    db2.open()
+                    back = db2.get_by_label('é-label' if src['vs'] % 2 else 'plain_label')
+                else:
+                    import lzma
+                    import pathlib
+                    import tempfile
+
+                    with tempfile.TemporaryDirectory() as td:
+                        if how == 1:
+                            path = pathlib.Path(td) / 'db.bin'
+                            path.write_bytes(stream.getvalue())
+                        else:
+                            path = str(pathlib.Path(td) / 'db.bin.xz')
+                            with lzma.open(path, 'wb') as f:
+                                f.write(stream.getvalue())
+                        with CircuitsDatabase(path) as db2:
+                            back = db2.get_by_label('é-label' if src['vs'] % 2 else 'plain_label')
                 case['db_back'] = project(back) if back is not None else case['c']
                 if back is None:
                     case['db_exc'] = 'label-not-found'
